@@ -2851,6 +2851,14 @@ static Type *union_decl(Token **rest, Token *tok) {
   // are already initialized to zero. We need to compute the
   // alignment and the size though.
   for (Member *mem = ty->members; mem; mem = mem->next) {
+    // A bit-field occupies only as many bytes as its width requires,
+    // and an unnamed one does not affect the alignment.
+    if (mem->is_bitfield && !mem->name) {
+      int sz = align_to(mem->bit_width, 8) / 8;
+      if (ty->size < sz)
+        ty->size = sz;
+      continue;
+    }
     if (!ty->is_packed && ty->align < mem->align)
       ty->align = mem->align;
     if (ty->size < mem->ty->size)
